@@ -262,6 +262,33 @@ def run_fragment(body: Sequence[ast.stmt], names: Dict[str, Any], attrs: Optiona
             return
         if not isinstance(t.slice, (ast.Tuple, ast.Slice)):
             mask_ = fold(t.slice)
+            if isinstance(mask_, PySeq) and not isinstance(t.slice, (ast.List, ast.ListComp)) and mask_ and all(isinstance(q_, int) and not isinstance(q_, bool) for q_ in mask_):
+                # base[pos] = v with pos a python tuple of integers held in a variable: one index per axis
+                cur_ = base
+                for q_ in list(mask_)[:-1]:
+                    if not isinstance(cur_, list) or not (-len(cur_) <= q_ < len(cur_)):
+                        raise Unfoldable("tuple index out of range")
+                    cur_ = cur_[q_]
+                q_ = mask_[-1]
+                if not isinstance(cur_, list) or not (-len(cur_) <= q_ < len(cur_)):
+                    raise Unfoldable("tuple index out of range")
+                if isinstance(cur_[q_], list) != isinstance(v, list):
+                    if isinstance(cur_[q_], list) and not isinstance(v, list):
+                        from .constfold import _shape as _shp
+
+                        def _fill(z):
+                            return [_fill(e_) for e_ in z] if isinstance(z, list) else v
+
+                        cur_[q_] = _fill(cur_[q_])
+                    else:
+                        raise Unfoldable("store shape mismatch")
+                else:
+                    cur_[q_] = copy.deepcopy(v)
+                if in_attrs:
+                    attrs[_chain(t.value)] = base
+                else:
+                    env[t.value.id] = base
+                return
             if isinstance(mask_, BoolList):
                 # boolean-mask store: base[mask] = v (mask over the leading axes of base)
                 from .constfold import _at, _regular, _shape
